@@ -816,4 +816,8 @@ N('RW-header-append-plus-extend', ['C16'], 'frame.py', 'Frame._to_str_records',
   "                        for col_idx in range(index_depth):\n                            row.append(f'{columns_names[row_idx]}' if col_idx == 0 else '')",
   "                        row.append(f'{columns_names[row_idx]}')\n                        row.extend(('' for _ in range(1, index_depth)))")
 
+# ---------------------------------------------------------------------------------- removed NumPy API (C14, C08)
+B('NP-in1d-back', ['C14', 'C08'], 'util.py', 'isin_array',
+  'func = np.isin #', 'func = np.in1d if array.ndim == 1 else np.isin #', 'I.numpy-removed-api', None)
+
 VARIANTS = V
